@@ -16,7 +16,11 @@ fn en_of(v: &Value) -> EnumDescriptorProto {
 }
 fn msg_of(v: &Value) -> DescriptorProto {
     DescriptorProto { name: Some(v["name"].as_str().unwrap().to_string()),
-        field: names(&v["fields"]).into_iter().enumerate().map(|(i, n)| FieldDescriptorProto { name: Some(n), number: Some(i as i32 + 1), r#type: Some(5), label: Some(1), ..Default::default() }).collect(),
+        // a field marked opt is a proto3 `optional` field: it points at its synthetic oneof `_<name>`, which - as protoc emits it - comes after
+        // the real oneofs in oneof_decl
+        field: v["fields"].as_array().cloned().unwrap_or_default().iter().enumerate().map(|(i, f)| { let n = f["name"].as_str().unwrap_or("").to_string();
+            let syn = if f["opt"].as_bool().unwrap_or(false) { names(&v["oneofs"]).iter().position(|o| *o == format!("_{n}")).map(|p| p as i32) } else { None };
+            FieldDescriptorProto { name: Some(n), number: Some(i as i32 + 1), r#type: Some(5), label: Some(1), proto3_optional: syn.map(|_| true), oneof_index: syn, ..Default::default() } }).collect(),
         oneof_decl: names(&v["oneofs"]).into_iter().map(|n| OneofDescriptorProto { name: Some(n), options: None }).collect(),
         nested_type: v["nested"].as_array().cloned().unwrap_or_default().iter().map(msg_of).collect(),
         enum_type: v["enums"].as_array().cloned().unwrap_or_default().iter().map(en_of).collect(), ..Default::default() }
